@@ -1309,15 +1309,115 @@ func collectEffects(P *Program, f *ssa.Function, env map[ssa.Value]string, guard
 			if cal == nil || depth <= 0 || cal.Blocks == nil || fnPkgPath(cal) != fnPkgPath(f) {
 				continue
 			}
-			env2 := map[ssa.Value]string{}
-			withPathEnv(env, func() {
-				for i, p := range cal.Params {
-					if i < len(cc.Args) {
-						env2[p] = accessPath(cc.Args[i])
+			// an argument assembled by a helper as "nil or the node" (phi with a nil alternative): one binding per alternative,
+			// each under the facts of its incoming edge; the callee's effects under `param != nil` vanish for the nil one
+			type binding struct {
+				env    map[ssa.Value]string
+				guards []string
+				nilArg map[ssa.Value]bool
+			}
+			bindings := []binding{{env: map[ssa.Value]string{}, guards: all, nilArg: map[ssa.Value]bool{}}}
+			for i, prm := range cal.Params {
+				if i >= len(cc.Args) {
+					continue
+				}
+				arg := cc.Args[i]
+				var cases []retCase
+				if ph, isPhi := stripConv(arg).(*ssa.Phi); isPhi {
+					hasNil := false
+					for _, e := range ph.Edges {
+						if isNilConst(stripConv(e)) {
+							hasNil = true
+						}
+					}
+					if hasNil {
+						cases = splitPhiCases(ph, ci.Block(), nil, 0)
 					}
 				}
-			})
-			collectEffects(P, cal, env2, all, depth-1, out)
+				if len(cases) == 0 {
+					withPathEnv(env, func() {
+						for k := range bindings {
+							bindings[k].env[prm] = accessPath(arg)
+						}
+					})
+					// a struct handed over by value: its fields are what the caller stored into them
+					if ld, ok := stripConv(arg).(*ssa.UnOp); ok && ld.Op == token.MUL {
+						if al, ok := ld.X.(*ssa.Alloc); ok {
+							eachInstr(cal, func(x ssa.Instruction) {
+								var at ssa.Value
+								fidx := -1
+								if fl, ok := x.(*ssa.Field); ok && fl.X == ssa.Value(prm) {
+									at, fidx = fl, fl.Field
+								}
+								// the parameter spilled into a local of the callee and read through a field address
+								if u, ok := x.(*ssa.UnOp); ok && u.Op == token.MUL {
+									if fa, ok := u.X.(*ssa.FieldAddr); ok {
+										if spill, ok := fa.X.(*ssa.Alloc); ok && allocSingleStore(spill) == ssa.Value(prm) {
+											at, fidx = u, fa.Field
+										}
+									}
+								}
+								if at == nil {
+									return
+								}
+								if fv := structFieldOfAlloc(al, fidx, 0); fv != nil {
+									withPathEnv(env, func() {
+										for k := range bindings {
+											bindings[k].env[at] = accessPath(fv)
+										}
+									})
+								}
+							})
+						}
+					}
+					continue
+				}
+				var next []binding
+				for _, bd := range bindings {
+					for _, cs := range cases {
+						nb := binding{env: map[ssa.Value]string{}, guards: append([]string{}, bd.guards...), nilArg: map[ssa.Value]bool{}}
+						for k, v := range bd.env {
+							nb.env[k] = v
+						}
+						for k, v := range bd.nilArg {
+							nb.nilArg[k] = v
+						}
+						withPathEnv(env, func() {
+							nb.env[prm] = accessPath(cs.val)
+							for _, ft := range cs.extra {
+								nb.guards = append(nb.guards, canonCond(ft.Cond, ft.Truth))
+							}
+							for g := range canonFacts(cs.block) {
+								nb.guards = append(nb.guards, g)
+							}
+						})
+						if isNilConst(stripConv(cs.val)) {
+							nb.nilArg[prm] = true
+						}
+						next = append(next, nb)
+					}
+				}
+				bindings = next
+			}
+			for _, bd := range bindings {
+				var sub []effect
+				collectEffects(P, cal, bd.env, bd.guards, depth-1, &sub)
+				for _, e := range sub {
+					// effects the callee performs only under `param != nil` do not happen when nil was passed
+					dead := false
+					for prm := range bd.nilArg {
+						nm := bd.env[prm]
+						for _, g := range e.guards {
+							if g == nm+" != "+nm || g == "nil != nil" {
+								dead = true
+							}
+						}
+					}
+					if !dead {
+						*out = append(*out, e)
+					}
+				}
+			}
 		}
 	}
 }
